@@ -338,7 +338,7 @@ def run(ctx):
     st = State()
     pt = install(ctx, st)
     small, big = cfg(9), cfg(25)
-    for i in range(ctx.n(3000, 100000)):
+    for i in range(ctx.n(5000, 100000)):
         heavy = i % 4 != 0
         p = gp.gen_pep(ctx.rng, small if heavy else big)
         run_case(ctx, st, pt, p, heavy)
